@@ -3,7 +3,9 @@
 // The tool (built by the driver from /repo/util/econftool.c + the ASan library,
 // path in $VF_ECONFTOOL) runs on a pseudo-terminal so that stdout and stderr
 // arrive in program order; the same tree is read in-process through the library.
+#include <poll.h>
 #include <pty.h>
+#include <sys/ioctl.h>
 #include <sys/wait.h>
 
 #include "common/engine.hpp"
@@ -22,13 +24,24 @@ struct ToolRun {
   std::string raw;
 };
 
+// The tool runs on a pseudo-terminal so that stdout and stderr arrive in program order. The parent keeps the
+// slave side open until everything is read: on Linux unread output can be discarded when the last slave
+// descriptor closes at the child's exit (seen as truncated output under load).
 static ToolRun run_tool(const std::vector<std::string> &args, const std::string &root) {
   ToolRun r;
-  int master = -1;
+  int master = -1, slave = -1;
   struct winsize ws = {50, 4000, 0, 0};
-  pid_t pid = forkpty(&master, nullptr, nullptr, &ws);
-  VF_CHECK(pid >= 0, "harness", "forkpty failed");
+  VF_CHECK(openpty(&master, &slave, nullptr, nullptr, &ws) == 0, "harness", "openpty failed");
+  pid_t pid = fork();
+  VF_CHECK(pid >= 0, "harness", "fork failed");
   if (pid == 0) {
+    close(master);
+    setsid();
+    ioctl(slave, TIOCSCTTY, 0);
+    dup2(slave, 0);
+    dup2(slave, 1);
+    dup2(slave, 2);
+    if (slave > 2) close(slave);
     setenv("ECONFTOOL_ROOT", root.c_str(), 1);
     setenv("ASAN_OPTIONS", "exitcode=99:detect_leaks=0:abort_on_error=0", 1);
     setenv("UBSAN_OPTIONS", "halt_on_error=1:exitcode=99", 1);
@@ -42,14 +55,23 @@ static ToolRun run_tool(const std::vector<std::string> &args, const std::string 
     _exit(127);
   }
   char buf[65536];
-  for (;;) {
-    ssize_t n = read(master, buf, sizeof buf);
-    if (n <= 0) break;
-    r.raw.append(buf, (size_t)n);
-  }
-  close(master);
   int st = 0;
-  waitpid(pid, &st, 0);
+  bool exited = false;
+  for (;;) {
+    struct pollfd pf = {master, POLLIN, 0};
+    int pr = poll(&pf, 1, exited ? 8 : 3);
+    if (pr > 0 && (pf.revents & POLLIN)) {
+      ssize_t n = read(master, buf, sizeof buf);
+      if (n > 0) {
+        r.raw.append(buf, (size_t)n);
+        continue;
+      }
+    }
+    if (exited) break;  // child gone and nothing left to read
+    if (waitpid(pid, &st, WNOHANG) == pid) exited = true;
+  }
+  close(slave);
+  close(master);
   r.status = WIFEXITED(st) ? WEXITSTATUS(st) : 1000 + WTERMSIG(st);
   std::string cur;
   for (char c : r.raw) {
